@@ -5,6 +5,7 @@
 package agg
 
 import (
+	"github.com/teleport-network/teleport/x/aggregate"
 	"bytes"
 	"fmt"
 	"math/big"
@@ -353,6 +354,33 @@ func (s *Sys) Apply(op string) (obs, class string, viols []bfs.Viol) {
 			obs = class + ": " + err.Error()
 		}
 		return obs, class, s.registryCheck(add)
+	case "reimport": // the aggregate module's state goes through its own genesis export and import (a restart from an exported genesis)
+		var derr string
+		s.w.Do(s.c, func(ctx sdk.Context) {
+			gs := aggregate.ExportGenesis(ctx, *k)
+			bz := s.c.App.AppCodec().MustMarshalJSON(gs)
+			var back aggregatetypes.GenesisState
+			s.c.App.AppCodec().MustUnmarshalJSON(bz, &back)
+			if err := back.Validate(); err != nil {
+				derr = err.Error()
+				return
+			}
+			st := ctx.KVStore(s.c.App.GetKey(aggregatetypes.StoreKey))
+			var keys [][]byte
+			it := st.Iterator(nil, nil)
+			for ; it.Valid(); it.Next() {
+				keys = append(keys, append([]byte{}, it.Key()...))
+			}
+			it.Close()
+			for _, kk := range keys {
+				st.Delete(kk)
+			}
+			aggregate.InitGenesis(ctx, *k, s.c.App.AccountKeeper, back)
+		})
+		if derr != "" {
+			add("C12", "exported-registry-fails-own-validation", derr)
+		}
+		return "reimported", "registry exported and re-imported", s.registryCheck(add)
 	case "destruct": // the contract account disappears (as the repository's own tests model self-destruction)
 		t := s.addr(f[1])
 		s.w.Do(s.c, func(ctx sdk.Context) {
